@@ -100,6 +100,7 @@ class _PooledTransport:
 
     __slots__ = (
         "_inner",
+        "_interrupted",
         "_last_stream_session",
         "_pool",
         "_returned",
@@ -116,6 +117,7 @@ class _PooledTransport:
         self._shm = shm
         self._stream_opened = False
         self._stream_leaked = False
+        self._interrupted = False
         self._last_stream_session: StreamSession | None = None
 
     @property
@@ -157,8 +159,11 @@ class _PooledTransport:
         # A stream is "abandoned" if it was opened but not read to its end:
         # never closed, closed without reaching the EOS marker (transport error,
         # on_log raising during the drain), or interleaved with a later call.
+        # A borrow cut short by KeyboardInterrupt & co. is treated the same way.
         last = self._last_stream_session
-        stream_abandoned = self._stream_opened and (self._stream_leaked or last is None or not last._drained)
+        stream_abandoned = self._interrupted or (
+            self._stream_opened and (self._stream_leaked or last is None or not last._drained)
+        )
         self._last_stream_session = None
         try:
             self._pool._return_worker(self._inner, stream_abandoned)
@@ -286,7 +291,16 @@ class WorkerPool:
                 external_location=external_location,
                 ipc_validation=ipc_validation,
             ) as proxy:
-                yield proxy
+                try:
+                    yield proxy
+                except BaseException as exc:
+                    if not isinstance(exc, Exception):
+                        # KeyboardInterrupt, SystemExit, GeneratorExit can cut a
+                        # call short at any point — between two writes, or past the
+                        # client's own cleanup of a half-read response — so the
+                        # connection cannot be trusted to be at a message boundary.
+                        pooled._interrupted = True
+                    raise
         finally:
             if pooled is not None:
                 pooled.close()
